@@ -133,6 +133,9 @@ def gen(t, sform, shape, forms, lens, src_kind, domain, tier):
     h.stub_loc = True
     if fxn in MACRO_GENERATED:
         h.tier = "thorough"
+    if src_kind == "vector" and "B" in forms:
+        h.tier = "off"
+        h.off_reason = "vector source through a mask: no verdict in 900 s (the addressed count is the symbolic number of true bits)"
     h.heavy = True
     h.stub_kind = True
     return h
